@@ -25,6 +25,7 @@ package account
 //@ func (ctrler *AcctCtrler) setAccountCommittable(acct, exec)
 //@   nopanic
 //@   objinv ctrler != nil && ctrler.acctLedger != nil
+//@   assumes cons_ok == exec
 //@   requires acct != nil
 //@   modifies allmaps(memItems.gotItems)
 //@   ensures result == nil                                                                                             [C05]
@@ -33,6 +34,7 @@ package account
 //@   nopanic
 //@   implements (IAccountHandler).SetAccountCommittable
 //@   objinv ctrler != nil && ctrler.acctLedger != nil
+//@   assumes cons_ok == exec
 //@   requires acct != nil
 //@   modifies allmaps(memItems.gotItems)
 //@   ensures result == nil                                                                                             [C05]
@@ -46,6 +48,7 @@ package account
 //@   nopanic
 //@   implements (ITrxHandler_TrxAcctHandler).ExecuteTrx
 //@   objinv ctrler != nil && ctrler.acctLedger != nil
+//@   assumes cons_ok == ctx.Exec
 //@   assumes amounts_fit(ctx)
 //@   requires wf_ctx(ctx)
 //@   assumes noalias(ctx)
@@ -53,3 +56,43 @@ package account
 //@   ensures result != nil ==> u(ctx.Sender.Balance) == old(u(ctx.Sender.Balance)) && u(ctx.Receiver.Balance) == old(u(ctx.Receiver.Balance))   [C05]
 //@   ensures result == nil ==> u(ctx.Sender.Balance) >= old(u(ctx.Sender.Balance)) - u(ctx.Tx.Amount)                  [C16]
 //@   ensures result == nil && ctx.Tx.Type == 1 && ctx.Sender != ctx.Receiver ==> u(ctx.Sender.Balance) == old(u(ctx.Sender.Balance)) - u(ctx.Tx.Amount) && u(ctx.Receiver.Balance) == old(u(ctx.Receiver.Balance)) + u(ctx.Tx.Amount)   [C02]
+
+// ---- queries (C19, C06)
+//@ func (ctrler *AcctCtrler) Query(req)
+//@   objinv ctrler != nil && ctrler.acctLedger != nil
+//@   assumes !cons_ok
+//@   modifies everything
+//@   preserves allmaps(memItems.gotItems), allmaps(memItems.updatedItems), memItems.*, allelems(memItems.removedKeys), FinalityLedger.*, SimpleLedger.*, MemLedger.*, StakeCtrler.*, GovCtrler.*, AcctCtrler.*, GovParams.*, cons_ok, deadobj
+//@   assert@call(ImmutableLedgerAt,0): $arg0 == req.Height && $target == ctrler.acctLedger                    [C19]
+//@   assert@call(Read,0): immuheight[$target] == req.Height && $arg0 == lkey(content(req.Data))               [C19]
+
+// ---- account lookup and crediting (C06: the view is selected by exec; C02/C12/C13: exact credit) -------
+//@ func (ctrler *AcctCtrler) findAccount(addr, exec)
+//@   nopanic
+//@   objinv ctrler != nil && ctrler.acctLedger != nil
+//@   assumes cons_ok == exec
+//@   modifies allmaps(memItems.gotItems), itemkey, itemenc
+//@   allocates Account, uint256.Int
+//@   ensures items_same()
+//@   ensures result != nil ==> result == as(acctobj(ctrler.acctLedger, lkey(content(addr)), exec ? 1 : 0), ptr(Account)) && wf_acct(result)   [C06]
+
+//@ func (ctrler *AcctCtrler) FindAccount(addr, exec)
+//@   sameas (*AcctCtrler).findAccount
+
+//@ func (ctrler *AcctCtrler) FindOrNewAccount(addr, exec)
+//@   nopanic
+//@   objinv ctrler != nil && ctrler.acctLedger != nil
+//@   assumes cons_ok == exec
+//@   modifies allmaps(memItems.gotItems), itemkey, itemenc
+//@   allocates Account, uint256.Int
+//@   ensures result != nil                                                                                     [C06]
+
+//@ func (ctrler *AcctCtrler) Reward(to, amt, exec)
+//@   nopanic
+//@   objinv ctrler != nil && ctrler.acctLedger != nil
+//@   assumes cons_ok == exec
+//@   requires amt != nil
+//@   modifies mem(uint256.Int), allmaps(memItems.gotItems), itemkey, itemenc
+//@   allocates Account, uint256.Int
+//@   assert@call(AddBalance,0): $arg0 == as(acctobj(ctrler.acctLedger, lkey(content(to)), exec ? 1 : 0), ptr(Account)) && $arg1 == amt   [C02,C12,C13]
+//@   assert@call(setAccountCommittable,0): $arg1 == as(acctobj(ctrler.acctLedger, lkey(content(to)), exec ? 1 : 0), ptr(Account)) && $arg2 == exec   [C06]
